@@ -1056,6 +1056,11 @@ def _abort_setup(fam):
     lib = _lib()
     from permuta import permutils
     what = fam["what"]
+    # the number of call events must not depend on what this process did before: start every
+    # execution from an empty standardisation cache (the only process-wide memo these operations use)
+    cc = getattr(getattr(lib.Perm, "_to_standard", None), "cache_clear", None)
+    if cc is not None:
+        cc()
     if what in ("perm_op", "mesh_op", "all_syms", "search"):
         kind = "mesh" if (what == "mesh_op" or fam.get("kind") == "mesh") else "perm"
         obj = _build_any(kind, fam)
